@@ -209,7 +209,10 @@ function runMain(wasmFile, fsetFile, mainFunc) {
   let status = 'ok';
   try {
     const mod = new WebAssembly.Module(bytes);
-    inst = new WebAssembly.Instance(mod, { syscall_js: js, unknown: unknown });   // runs the start function, if any
+    inst = new WebAssembly.Instance(mod, { syscall_js: js, unknown: unknown });   // runs the start section, if any
+    // wazero's ModuleConfig default (startFunctions = ["_start"]): InstantiateModule calls the exported _start, which in
+    // Wa output runs the package initialisers (global variables); every Wa host does the same before calling main.
+    if (typeof inst.exports._start === 'function') inst.exports._start();
     const f = inst.exports[mainFunc];
     if (typeof f === 'function') f();
     else if (mainFunc !== '_main') status = 'nomain';
